@@ -313,6 +313,10 @@ func C12(p *Prog, r *Run) {
 		r.c12Layout()
 	})
 
+	r.Rule("C12.6", "input/output windows: the fast solver loads input i into signal[biasCount+i] for all inputs and reads the outputs from signal[sensorCount : sensorCount+outputCount]; the standard network loads sensor values in input order (bias 1.0 when not supplied) and reads Outputs[i].Activation", func() {
+		r.c12Windows()
+	})
+
 	r.Rule("C12.4", "sum-then-activate: the standard sweep adds ConnectionWeight*source.GetActiveOut() for every incoming link and activates from that sum; the fast sweeps add signal[source]*weight into signal[target]", func() {
 		as := p.Func(PkgN, "Network.ActivateSteps")
 		r.Fn(FuncName(as))
@@ -569,4 +573,134 @@ func (r *Run) c12Layout() {
 	}
 	r.Check(okAct && okMap && same && okStep, "layout.processList", p.Pos(pl.Pos()), "activations[i] and lookup[id] are written under the same i, i runs from the start index by one per neuron and is returned",
 		fmt.Sprintf("processList: activation stored=%v id->index stored=%v under the same index=%v index runs start,start+1,.. and is returned=%v", okAct, okMap, same, okStep))
+}
+
+// c12Windows implements C12.6.
+func (r *Run) c12Windows() {
+	p := r.P
+	ls := p.Func(PkgN, "FastModularNetworkSolver.LoadSensors")
+	ro := p.Func(PkgN, "FastModularNetworkSolver.ReadOutputs")
+	r.Fn(FuncName(ls), FuncName(ro))
+	tm := NewTermer(ls)
+	okStore, okGuard := false, false
+	Instrs(ls, func(b *ssa.BasicBlock, _ int, in ssa.Instruction) {
+		st, ok := in.(*ssa.Store)
+		if !ok {
+			return
+		}
+		ia, ok := st.Addr.(*ssa.IndexAddr)
+		if !ok || tm.Of(ia.X).String() != "recv.neuronSignals" {
+			return
+		}
+		it := tm.Of(ia.Index)
+		vt := tm.Of(st.Val)
+		// index = biasNeuronCount + i, value = inputs[i], i = 0..inputNeuronCount-1
+		if it.Op == "bin" && it.Name == "+" && vt.Op == "elem" && isParamIdx(vt.Args[0], 1) {
+			var iv *Term
+			if it.Args[0].String() == "recv.biasNeuronCount" {
+				iv = it.Args[1]
+			} else if it.Args[1].String() == "recv.biasNeuronCount" {
+				iv = it.Args[0]
+			}
+			if iv != nil && len(vt.Args) > 1 && vt.Args[1].V == iv.V {
+				if ph, ok := iv.V.(*ssa.Phi); ok {
+					l := InnermostLoop(Loops(ls), b)
+					init, step, bound := false, false, false
+					for _, e := range ph.Edges {
+						if IsConstIntValue(e, 0) {
+							init = true
+						} else if bo, ok := e.(*ssa.BinOp); ok && bo.Op == token.ADD && bo.X == ssa.Value(ph) && IsConstIntValue(bo.Y, 1) {
+							step = true
+						}
+					}
+					if l != nil {
+						if iff, ok := l.Header.Instrs[len(l.Header.Instrs)-1].(*ssa.If); ok {
+							ct := tm.Of(iff.Cond)
+							bound = ct.Op == "bin" && ct.Name == "<" && ct.Args[0].V == ssa.Value(ph) && (ct.Args[1].String() == "recv.inputNeuronCount" || ct.Args[1].String() == "len(p1)")
+						}
+					}
+					okStore = init && step && bound
+				}
+			}
+		}
+		for _, g := range Guards(b) {
+			gt := tm.Of(g.Cond)
+			if gt.Op == "bin" && gt.Name == "==" && g.True && gt.Args[0].String() == "len(p1)" && gt.Args[1].String() == "recv.inputNeuronCount" {
+				okGuard = true
+			}
+		}
+	})
+	r.Check(okStore && okGuard, "fast.LoadSensors", p.Pos(ls.Pos()), "signal[biasCount+i] = inputs[i] for i = 0..inputCount-1, only for a vector of exactly inputCount values", fmt.Sprintf("the fast solver does not load input i into neuronSignals[biasNeuronCount+i] for every input (store ok=%v, size guard=%v)", okStore, okGuard))
+	// ReadOutputs
+	okRead := false
+	Instrs(ro, func(_ *ssa.BasicBlock, _ int, in ssa.Instruction) {
+		c, ok := in.(*ssa.Call)
+		if !ok {
+			return
+		}
+		if b, isB := c.Call.Value.(*ssa.Builtin); !isB || b.Name() != "copy" {
+			return
+		}
+		sl, ok := c.Call.Args[1].(*ssa.Slice)
+		if !ok || sl.Low == nil || sl.High == nil {
+			return
+		}
+		rtm := NewTermer(ro)
+		lo, hi := rtm.Of(sl.Low).String(), strings.ReplaceAll(rtm.Of(sl.High).String(), " ", "")
+		dst := rtm.Of(c.Call.Args[0])
+		okRead = rtm.Of(sl.X).String() == "recv.neuronSignals" && lo == "recv.sensorNeuronCount" &&
+			(hi == "(recv.sensorNeuronCount+recv.outputNeuronCount)" || hi == "(recv.outputNeuronCount+recv.sensorNeuronCount)") &&
+			dst.Op == "make" && len(dst.Args) > 0 && dst.Args[0].String() == "recv.outputNeuronCount"
+	})
+	r.Check(okRead, "fast.ReadOutputs", p.Pos(ro.Pos()), "outputs = copy of signal[sensorCount : sensorCount+outputCount]", "the fast solver does not return a copy of neuronSignals[sensorNeuronCount : sensorNeuronCount+outputNeuronCount]")
+	// standard network
+	nro := p.Func(PkgN, "Network.ReadOutputs")
+	ntm := NewTermer(nro)
+	okN := false
+	Instrs(nro, func(_ *ssa.BasicBlock, _ int, in ssa.Instruction) {
+		if st, ok := in.(*ssa.Store); ok {
+			if ia, ok := st.Addr.(*ssa.IndexAddr); ok {
+				vt := ntm.Of(st.Val)
+				if vt.Op == "field" && vt.Name == "Activation" && vt.Args[0].Op == "elem" && vt.Args[0].Args[0].String() == "recv.Outputs" && len(vt.Args[0].Args) > 1 && vt.Args[0].Args[1].V == ia.Index {
+					okN = true
+				}
+			}
+		}
+	})
+	r.Check(okN, "standard.ReadOutputs", p.Pos(nro.Pos()), "outs[i] = Outputs[i].Activation", "Network.ReadOutputs does not return the activation of output i at position i")
+	nls := p.Func(PkgN, "Network.LoadSensors")
+	ltm := NewTermer(nls)
+	nLoad, okLoad := 0, true
+	for _, c := range CallsTo(nls, p.Func(PkgN, "NNode.SensorLoad")) {
+		a := callArgTerms(ltm, c.Common())
+		if a[1].Op == "const" {
+			continue // the default bias value (checked by C12.3)
+		}
+		nLoad++
+		// value = sensors[counter], node = inputs[j], counter advances by one in the same block
+		okc := a[0].Op == "elem" && a[0].Args[0].String() == "recv.inputs" && a[1].Op == "elem" && isParamIdx(a[1].Args[0], 1)
+		if okc {
+			ph, isPhi := a[1].Args[1].V.(*ssa.Phi)
+			adv := false
+			if isPhi {
+				for _, ref := range *ph.Referrers() {
+					if b, ok := ref.(*ssa.BinOp); ok && b.Op == token.ADD && b.X == ssa.Value(ph) && IsConstIntValue(b.Y, 1) && b.Block() == c.Block() {
+						adv = true
+					}
+				}
+				init := false
+				for _, e := range ph.Edges {
+					if IsConstIntValue(e, 0) {
+						init = true
+					}
+				}
+				adv = adv && init
+			}
+			okc = adv
+		}
+		if !okc {
+			okLoad = false
+		}
+	}
+	r.Check(okLoad && nLoad >= 2, "standard.LoadSensors", p.Pos(nls.Pos()), "input nodes receive sensors[0], sensors[1], ... in input order", "Network.LoadSensors does not hand sensor value k to the k-th input node (counter from 0, one step per loaded node)")
 }
